@@ -62,25 +62,31 @@ class RefBroker:
         self.ctag = 0
         self.frame_errors = []
         self.last_in_time = None
+        self.replying = False
+        self.batch = 0
 
     # -- helpers ------------------------------------------------------------------------------
     @property
     def now(self):
         return self.net.sched.now
 
-    def send(self, ch, fr):
+    def send(self, ch, fr, reply=None):
         if self.silent:
             return
-        self.ledger.append((self.now, 'out', ch, getattr(fr, 'name', type(fr).__name__), fr))
+        name = getattr(fr, 'name', type(fr).__name__)
+        if reply is None:
+            reply = self.replying
+        self.ledger.append((self.now, 'out', ch, name, fr))
+        self.net.sched.ev('broker_out', (ch, name, bool(reply), self.batch))
         self.net.deliver(self.sock, pframe.marshal(fr, ch))
 
-    def send_content(self, ch, method, props, body, piece=None):
+    def send_content(self, ch, method, props, body, piece=None, reply=None):
         fm = (self.tune_ok.frame_max if self.tune_ok else 0) or 131072
         piece = piece or self.policy.get_split or (fm - 8)
-        self.send(ch, method)
-        self.send(ch, pheader.ContentHeader(body_size=len(body), properties=props or spec.Basic.Properties()))
+        self.send(ch, method, reply)
+        self.send(ch, pheader.ContentHeader(body_size=len(body), properties=props or spec.Basic.Properties()), reply)
         for i in range(0, len(body), piece):
-            self.send(ch, pbody.ContentBody(body[i:i + piece]))
+            self.send(ch, pbody.ContentBody(body[i:i + piece]), reply)
 
     def close_socket(self):
         self.sock.peer_closed = True
@@ -126,7 +132,13 @@ class RefBroker:
             name = getattr(fr, 'name', type(fr).__name__)
             self.ledger.append((self.now, 'in', ch, name, fr))
             self.last_in_time = self.now
-            self.on_frame(ch, name, fr)
+            self.batch += 1
+            self.net.sched.ev('broker_in', (ch, name, self.batch))
+            self.replying = True
+            try:
+                self.on_frame(ch, name, fr)
+            finally:
+                self.replying = False
 
     # -- protocol -----------------------------------------------------------------------------
     def on_frame(self, ch, name, fr):
@@ -344,11 +356,11 @@ class RefBroker:
         if fate == 'close-channel':
             c['state'] = 'closing'
             return self.send(ch, spec.Channel.Close(reply_code=404, reply_text="NOT_FOUND - no exchange '%s'" % m.exchange,
-                                                    class_id=60, method_id=40))
+                                                    class_id=60, method_id=40), reply=False)
         routable = m.exchange == '' and m.routing_key in self.queues or (m.exchange != '' and fate != 'return-ack')
         if fate == 'return-ack' or (m.mandatory and not routable and fate is None):
             self.send_content(ch, spec.Basic.Return(reply_code=312, reply_text='NO_ROUTE', exchange=m.exchange,
-                                                    routing_key=m.routing_key), m.props, m.body)
+                                                    routing_key=m.routing_key), m.props, m.body, reply=False)
         elif routable and m.exchange == '':
             self.queues[m.routing_key].append((m.props, m.body, m.exchange, m.routing_key))
         if c['confirm']:
@@ -380,7 +392,7 @@ class RefBroker:
             c['delivery_tag'] += 1
             c.setdefault('delivered', []).append((tag, c['delivery_tag'], props, body))
             self.send_content(ch, spec.Basic.Deliver(consumer_tag=tag, delivery_tag=c['delivery_tag'], redelivered=False,
-                                                     exchange=ex, routing_key=rk), props, body)
+                                                     exchange=ex, routing_key=rk), props, body, reply=False)
 
     # -- unsolicited actions (called by scenario/broker threads) -------------------------------------
     def close_channel(self, ch, code=404, text='NOT_FOUND'):
@@ -388,17 +400,17 @@ class RefBroker:
         if c is not None:
             c['state'] = 'closing'
             c['consumers'].clear()
-        self.send(ch, spec.Channel.Close(reply_code=code, reply_text=text, class_id=0, method_id=0))
+        self.send(ch, spec.Channel.Close(reply_code=code, reply_text=text, class_id=0, method_id=0), reply=False)
 
     def close_connection(self, code=320, text='CONNECTION_FORCED'):
-        self.send(0, spec.Connection.Close(reply_code=code, reply_text=text, class_id=0, method_id=0))
+        self.send(0, spec.Connection.Close(reply_code=code, reply_text=text, class_id=0, method_id=0), reply=False)
         self.state = 'closing'
 
     def cancel_consumer(self, ch, tag):
         c = self.channels.get(ch)
         if c is not None:
             c['consumers'].pop(tag, None)
-        self.send(ch, spec.Basic.Cancel(consumer_tag=tag))
+        self.send(ch, spec.Basic.Cancel(consumer_tag=tag), reply=False)
 
     def enqueue(self, queue, body, props=None):
         self.queues[queue].append((spec.Basic.Properties(**(props or {})), body, '', queue))
